@@ -303,6 +303,21 @@ func c16exec(j run.Job, a *run.Acc) {
 				in = !in
 			}
 		}
+		// separators where no element follows or precedes: a dangling one before a closer, a leading one after an opener,
+		// a doubled one (never inside a string, never next to a number's own characters)
+		for k := 0; k < len(doc); k++ {
+			if inside[k] {
+				continue
+			}
+			switch doc[k] {
+			case ']', '}':
+				muts = append(muts, doc[:k]+","+doc[k:], doc[:k]+", "+doc[k:])
+			case '[', '{':
+				muts = append(muts, doc[:k+1]+","+doc[k+1:])
+			case ',':
+				muts = append(muts, doc[:k]+","+doc[k:])
+			}
+		}
 		for k := 0; k < 6 && len(doc) > 0; k++ {
 			at := r.Intn(len(doc) + 1)
 			ch := stray[r.Intn(len(stray))]
@@ -359,7 +374,7 @@ func init() {
 			cov["rule"] = "case = a generated document of the supported subset: objects (duplicate and empty keys), arrays, strings with \\\" \\\\ \\b \\f \\n \\r \\t \\uXXXX (non-surrogate) and raw UTF-8, " +
 				"int64 integers without leading zeros, decimals with fraction and optional exponent within float64 range, true/false/null, whitespace only where the grammar's modes permit it, nesting <= 6. " +
 				"Oracle: encoding/json Decoder with UseNumber, numbers normalised to int64/float64, reflect.DeepEqual with Evaluate(Sentence(Trim(json.NewParser()))). " +
-				"'corrupt': truncation at EVERY byte, every dropped ','/':', appended garbage, doubled documents; when encoding/json rejects the result parsley must return an error (value or panic = violation). " +
+				"'corrupt': truncation at EVERY byte, every dropped ','/':', dangling / leading / doubled separators at every bracket, appended garbage, doubled documents; when encoding/json rejects the result parsley must return an error (value or panic = violation). " +
 				"non-trivial = a document with a container compared equal, or a document with at least one judged corruption"
 			if a.Counters["values equal to encoding/json"] == 0 || a.Counters["corrupted documents judged"] == 0 {
 				return "the workload did not reach both halves"
